@@ -18,7 +18,7 @@ Inductive Reach (t : table) : string -> Prop :=
 (** Scope s accounts for field f: it raises, uses or guards the field, the field is on the
     allowlist, or the node is handed on and another scope of the same kind uses or guards it. *)
 Definition Accounted (t : table) (s : scope) (f : string) : Prop :=
-  s_raises s = true \/ In f (s_reads s) \/ In f (s_guards s) \/ allowed (s_kind s) f = true \/
+  s_raises s = true \/ In f (s_reads s) \/ In f (s_guards s) \/ allowed_in (t_lowering t) (s_kind s) f = true \/
   (s_pass s = true /\
    exists s', In s' (t_scopes t) /\ s_kind s' = s_kind s /\ (In f (s_reads s') \/ In f (s_guards s'))).
 
